@@ -660,11 +660,13 @@ class KeychainSqlite3(Keychain):
         name = Name.to_bytes(name)
         id_name = formal_name[:-2]
         key = self[id_name][formal_name]
+        # Drop cached signers and the private key first: if anything below fails, the key is still listed
+        # and del_key can simply be repeated, but no signer for it can be obtained any more
+        self._signer_cache = {}
+        self.tpm.delete_key(formal_name)
         self.conn.execute('DELETE FROM certificates WHERE key_id=?', (key.row_id,))
         self.conn.execute('DELETE FROM keys WHERE key_name=?', (name,))
         self.conn.commit()
-        self.tpm.delete_key(formal_name)
-        self._signer_cache = {}
 
     def del_cert(self, name: NonStrictName):
         """
